@@ -163,6 +163,12 @@ def alphabet(model, profile):
         m2 = ops.enabled(model, step)
         if m2 is not None:
             out.append((step, m2))
+    # an image that add_isohybrid accepts (boot file with the isolinux signature, load size 4), so that its refusals for
+    # bad geometry / partition parameters are reached
+    hyb = [ops.add_fp(model.cfg, 'B', '/', 'boot'), ['add_eltorito', {'bootfile_path': '/B.;1', 'boot_load_size': 4}]]
+    m2 = ops.enabled(model, hyb)
+    if m2 is not None:
+        out.append((hyb, m2))
     # names that collide with the *default* boot catalog names of add_eltorito in one namespace only
     a = ops.add_fp(model.cfg, 'A', '/', 'c1')
     for mode in ('jonly', 'uonly') if profile == 'quick' else ('jonly', 'uonly', 'iso'):
